@@ -8,6 +8,13 @@
 //! its own actor following a generated script of read calls (borrow, borrow_and_update,
 //! has_changed, changed, wait_for, ReceiverStream). The sender is dropped immediately after the
 //! last update.
+//!
+//! Undecodable values. The value type `Val` carries the counter, a marker and padding. Its custom
+//! `Deserialize` rejects marked values (the sender's endpoint serialises them fine: version skew),
+//! and padded values exceed the `max_item_size` (`SMALL`) of every receiver that was transferred
+//! (a receiver is serialised as `Receiver<_, _, BIG>` and deserialised as `Receiver<_, _, SMALL>`,
+//! so the sending side accepts the item and the receiving side refuses it). Both yield a NON-FINAL
+//! receive error for that value only; later values must still arrive.
 
 use futures::StreamExt;
 use proptest::prelude::*;
@@ -30,12 +37,103 @@ use crate::engine::{
 use remoc::rch::{base, watch};
 
 /// Generator switch reserved for requirement 7 of the brief (exclusion of the trigger of a genuine
-/// finding). No genuine finding so far: nothing is excluded.
+/// finding) for the receiver-side part. No genuine finding there: nothing is excluded.
 pub const EXCLUDE_KNOWN_TRIGGER: bool = false;
 
+/// Values whose `Serialize` fails (a failure on the SENDER's endpoint). While `true` the generator
+/// never produces them (hand-written replay files can: bit 2 of `Case::bad` + `unsers` masks).
+pub const EXCLUDE_SENDER_SIDE_FAILURE: bool = true;
+
 type Codec = remoc::codec::Default;
-type WRx = watch::Receiver<u64, Codec>;
-type WTx = watch::Sender<u64, Codec>;
+/// Receive limit of every receiver that arrived over a connection.
+pub const SMALL: usize = 384;
+/// Limit with which receivers are serialised (the sending side of the forwarding uses it).
+pub const BIG: usize = remoc::rch::DEFAULT_MAX_ITEM_SIZE;
+/// Padding of an oversized value.
+pub const PAD: usize = 700;
+type WRx = watch::Receiver<Val, Codec, SMALL>;
+type WRxBig = watch::Receiver<Val, Codec, BIG>;
+type WTx = watch::Sender<Val, Codec>;
+
+/// The watched value: counter, marker, padding.
+#[derive(Clone, Debug)]
+pub struct Val {
+    pub n: u64,
+    pub mark: bool,
+    pub pad: Vec<u8>,
+    /// Not on the wire: `Serialize` fails for this value (sender-side failure, see
+    /// `EXCLUDE_SENDER_SIDE_FAILURE`).
+    pub unser: bool,
+}
+
+#[derive(Serialize)]
+#[serde(rename = "Val")]
+struct ValOut<'a> {
+    n: u64,
+    mark: bool,
+    pad: &'a [u8],
+}
+
+impl Serialize for Val {
+    fn serialize<S>(&self, s: S) -> Result<S::Ok, S::Error>
+    where
+        S: serde::Serializer,
+    {
+        if self.unser {
+            return Err(serde::ser::Error::custom("unserialisable value"));
+        }
+        ValOut { n: self.n, mark: self.mark, pad: &self.pad }.serialize(s)
+    }
+}
+
+#[derive(Deserialize)]
+#[serde(rename = "Val")]
+struct ValWire {
+    n: u64,
+    mark: bool,
+    pad: Vec<u8>,
+}
+
+impl<'de> Deserialize<'de> for Val {
+    /// Reads the whole value, then rejects it if it is marked ("this endpoint does not understand it").
+    fn deserialize<D>(d: D) -> Result<Self, D::Error>
+    where
+        D: serde::Deserializer<'de>,
+    {
+        let ValWire { n, mark, pad } = ValWire::deserialize(d)?;
+        if mark {
+            return Err(serde::de::Error::custom("marked value rejected"));
+        }
+        Ok(Val { n, mark, pad, unser: false })
+    }
+}
+
+#[derive(Clone, Copy, Debug, PartialEq, Eq)]
+enum Kind {
+    Plain,
+    /// Rejected by `Deserialize` at every endpoint that receives it over a connection.
+    Marked,
+    /// Larger than `SMALL`.
+    Big,
+    /// `Serialize` fails: the value cannot leave the sender's endpoint.
+    Unser,
+}
+
+fn kind_of(marks: u8, bigs: u8, unsers: u8, i: u8, bad: u8) -> Kind {
+    if bad & 4 != 0 && (unsers >> (i % 8)) & 1 != 0 {
+        Kind::Unser
+    } else if bad & 1 != 0 && (marks >> (i % 8)) & 1 != 0 {
+        Kind::Marked
+    } else if bad & 2 != 0 && (bigs >> (i % 8)) & 1 != 0 {
+        Kind::Big
+    } else {
+        Kind::Plain
+    }
+}
+
+fn make_val(n: u64, kind: Kind) -> Val {
+    Val { n, mark: kind == Kind::Marked, pad: if kind == Kind::Big { vec![0xa5; PAD] } else { Vec::new() }, unser: kind == Kind::Unser }
+}
 
 // ---------------------------------------------------------------------------------------------
 // Case
@@ -75,8 +173,20 @@ pub struct Reader {
 
 #[derive(Clone, Debug, Serialize, Deserialize, PartialEq, Eq, Hash)]
 pub enum Op {
-    /// `n` updates; `gap` = scheduler passes between them (0 = synchronous burst).
-    Send { n: u8, api: Api, gap: u8 },
+    /// `n` updates; `gap` = scheduler passes between them (0 = synchronous burst). Bit i of
+    /// `marks` / `bigs`: update i is a marked / an oversized value (if enabled by `Case::bad`).
+    Send {
+        n: u8,
+        api: Api,
+        gap: u8,
+        #[serde(default)]
+        marks: u8,
+        #[serde(default)]
+        bigs: u8,
+        /// Bit i: update i cannot be serialised (only if bit 2 of `Case::bad` is set).
+        #[serde(default)]
+        unsers: u8,
+    },
     Pause { ticks: u8, ms: u16 },
     CloneRx { sel: u8, script: u8 },
     Subscribe { script: u8 },
@@ -113,6 +223,16 @@ pub struct Case {
     pub final_api: Api,
     /// Transport fault: only the safety part of the oracle applies.
     pub fault: Option<FaultSpec>,
+    /// Bit 0: marked values enabled; bit 1: oversized values enabled; bit 2: unserialisable
+    /// values enabled.
+    #[serde(default)]
+    pub bad: u8,
+    #[serde(default)]
+    pub final_unsers: u8,
+    #[serde(default)]
+    pub final_marks: u8,
+    #[serde(default)]
+    pub final_bigs: u8,
 }
 
 fn api() -> BoxedStrategy<Api> {
@@ -140,7 +260,8 @@ fn reader() -> BoxedStrategy<Reader> {
 
 fn op() -> BoxedStrategy<Op> {
     prop_oneof![
-        30 => (1u8..=4, api(), prop_oneof![2 => Just(0u8), 1 => 1u8..=4]).prop_map(|(n, api, gap)| Op::Send { n, api, gap }),
+        30 => (1u8..=4, api(), prop_oneof![2 => Just(0u8), 1 => 1u8..=4], mask(), mask())
+            .prop_map(|(n, api, gap, marks, bigs)| Op::Send { n, api, gap, marks, bigs, unsers: if EXCLUDE_SENDER_SIDE_FAILURE { 0 } else { marks & bigs } }),
         20 => (0u8..=8, prop_oneof![3 => Just(0u16), 1 => Just(1u16), 1 => Just(20u16), 1 => Just(300u16), 1 => Just(4000u16)])
             .prop_map(|(ticks, ms)| Op::Pause { ticks, ms }),
         8 => (any::<u8>(), any::<u8>()).prop_map(|(sel, script)| Op::CloneRx { sel, script }),
@@ -150,6 +271,10 @@ fn op() -> BoxedStrategy<Op> {
         4 => any::<u8>().prop_map(|sel| Op::DropRx { sel }),
     ]
     .boxed()
+}
+
+fn mask() -> BoxedStrategy<u8> {
+    prop_oneof![3 => Just(0u8), 2 => 0u8..16].boxed()
 }
 
 fn cfg() -> BoxedStrategy<GCfg> {
@@ -184,8 +309,18 @@ pub fn strategy(tier: Tier) -> BoxedStrategy<Case> {
         proptest::collection::vec(op(), 1..n_ops),
         (0u8..=3, api()),
         fault,
+        (
+            if EXCLUDE_SENDER_SIDE_FAILURE {
+                prop_oneof![4 => Just(0u8), 3 => Just(1u8), 1 => Just(2u8), 2 => Just(3u8)].boxed()
+            } else {
+                prop_oneof![4 => Just(0u8), 3 => Just(1u8), 1 => Just(2u8), 2 => Just(3u8), 2 => Just(4u8), 2 => Just(7u8)].boxed()
+            },
+            // Often an undecodable value directly before the last (decodable) one.
+            prop_oneof![2 => Just(0u8), 2 => Just(1u8), 1 => Just(2u8), 1 => Just(3u8), 1 => 0u8..8],
+            prop_oneof![3 => Just(0u8), 1 => Just(1u8), 1 => Just(2u8), 1 => 0u8..8],
+        ),
     )
-        .prop_map(|((hops, origin, tokio_src), cfg_a, cfg_b, sched, readers, ops, (final_burst, final_api), fault)| Case {
+        .prop_map(|((hops, origin, tokio_src), cfg_a, cfg_b, sched, readers, ops, (final_burst, final_api), fault, (bad, final_marks, final_bigs))| Case {
             hops,
             origin,
             tokio_src,
@@ -197,6 +332,10 @@ pub fn strategy(tier: Tier) -> BoxedStrategy<Case> {
             final_burst,
             final_api,
             fault: if hops == 0 { None } else { fault },
+            bad,
+            final_marks,
+            final_bigs,
+            final_unsers: if EXCLUDE_SENDER_SIDE_FAILURE { 0 } else { final_marks & final_bigs },
         })
         .boxed()
 }
@@ -206,11 +345,27 @@ pub fn strategy(tier: Tier) -> BoxedStrategy<Case> {
 // ---------------------------------------------------------------------------------------------
 
 #[derive(Clone, Debug)]
+enum Seen {
+    Val(u64),
+    /// A read call returned a receive error (`fin` = `RecvError::is_final`).
+    Err { msg: String, fin: bool },
+}
+
+#[derive(Clone, Debug)]
 struct Obs {
-    v: u64,
+    seen: Seen,
     /// Highest value issued by the sender when the observation was made.
     sent_hi: u64,
     how: &'static str,
+}
+
+impl Obs {
+    fn show(&self) -> String {
+        match &self.seen {
+            Seen::Val(v) => format!("{v}"),
+            Seen::Err { fin, .. } => (if *fin { "FINAL-ERR" } else { "err" }).to_string(),
+        }
+    }
 }
 
 #[derive(Clone, Debug, PartialEq)]
@@ -224,16 +379,19 @@ enum End {
     Skipped,
     /// Lost in a failed transfer (fault cases only).
     Lost,
-    /// Reader gave up after a receive error.
+    /// Reader gave up after too many receive errors.
     Errored,
+    /// The item carrying the receiver could not be deserialised at the next endpoint (non-final
+    /// error of the harness' base channel): the receiver is gone.
+    Undecodable { local: bool, sent_hi: u64 },
 }
 
 #[derive(Debug)]
 struct RxLog {
     /// Lower bound for the first observation (value visible to the receiver at creation).
     floor: u64,
+    /// Observed values and receive errors in the order of the read calls.
     obs: Vec<Obs>,
-    errors: Vec<String>,
     end: Option<End>,
     /// Endpoint (None while in transit).
     node: Option<usize>,
@@ -241,11 +399,20 @@ struct RxLog {
     is_stream: bool,
     /// Closure seen while the sender was still alive.
     early_closure: bool,
+    /// Sender generation (number of sender transfers started) at creation; a clone inherits it.
+    born_gen: u32,
+    /// The receiver (or the receiver it was cloned from) arrived over a connection at least once:
+    /// it is fed by a receive task with the `SMALL` limit.
+    shipped: bool,
 }
 
 impl RxLog {
-    fn new(floor: u64, node: Option<usize>) -> Self {
-        RxLog { floor, obs: vec![], errors: vec![], end: None, node, transfers: 0, is_stream: false, early_closure: false }
+    fn new(floor: u64, node: Option<usize>, born_gen: u32) -> Self {
+        RxLog { floor, obs: vec![], end: None, node, transfers: 0, is_stream: false, early_closure: false, born_gen, shipped: false }
+    }
+
+    fn n_errors(&self) -> usize {
+        self.obs.iter().filter(|o| matches!(o.seen, Seen::Err { .. })).count()
     }
 }
 
@@ -269,6 +436,9 @@ struct Ticket {
 
 struct World {
     sent_hi: u64,
+    /// Number of sender transfers started: receivers created under an older generation are remote.
+    tx_gen: u32,
+    kinds: Vec<Kind>,
     stored: Vec<bool>,
     last_stored: u64,
     sender_dropped: bool,
@@ -278,20 +448,36 @@ struct World {
     inflight_rx: bool,
     inflight_tx: bool,
     relays: u32,
+    undecodable_halves: Vec<String>,
     rx_transfers: u32,
     tx_transfers: u32,
     healthy: bool,
     fails: Vec<(String, String)>,
 }
 
-#[derive(Serialize, Deserialize)]
-enum Half {
+/// What the harness' base channels carry, as serialised ...
+#[derive(Serialize)]
+#[serde(rename = "Half")]
+enum HalfOut {
+    Rx { id: u32, hops_left: u8, rx: WRxBig },
+    Tx(WTx),
+    /// Precedes every `Rx` on the same base channel: if the next item cannot be deserialised it is
+    /// this receiver that was lost.
+    Announce { id: u32, local: bool },
+}
+
+/// ... and as deserialised (same layout; the receiver has the `SMALL` receive limit).
+#[derive(Deserialize)]
+#[serde(rename = "Half")]
+enum HalfIn {
     Rx { id: u32, hops_left: u8, rx: WRx },
     Tx(WTx),
+    Announce { id: u32, local: bool },
 }
 
 enum Ship {
-    Rx { id: u32, hops_left: u8, rx: WRx },
+    /// `local`: the receiver was attached to the sender's own channel when it was shipped.
+    Rx { id: u32, hops_left: u8, rx: WRx, local: bool },
     Tx(WTx),
 }
 
@@ -321,14 +507,20 @@ impl Ctx {
         let mut w = self.world.lock().unwrap();
         let sent_hi = w.sent_hi;
         if let Some(l) = w.logs.get_mut(&id) {
-            l.obs.push(Obs { v, sent_hi, how });
+            l.obs.push(Obs { seen: Seen::Val(v), sent_hi, how });
         }
     }
 
-    fn error(&self, id: u32, e: String) {
+    /// Records a receive error; returns the number of errors recorded for this receiver.
+    fn error(&self, id: u32, (msg, fin): (String, bool), how: &'static str) -> usize {
         let mut w = self.world.lock().unwrap();
-        if let Some(l) = w.logs.get_mut(&id) {
-            l.errors.push(e);
+        let sent_hi = w.sent_hi;
+        match w.logs.get_mut(&id) {
+            Some(l) => {
+                l.obs.push(Obs { seen: Seen::Err { msg, fin }, sent_hi, how });
+                l.n_errors()
+            }
+            None => 0,
         }
     }
 
@@ -353,17 +545,25 @@ fn sleep_ms(code: u8) -> u64 {
     [1u64, 10, 100, 1000][code as usize % 4]
 }
 
+/// Upper bound of receive errors per receiver (each is followed by a blocking `changed()`).
+const MAX_ERRORS: usize = 1000;
+
+type RErr = (String, bool);
+
 enum StepOut {
     Nothing,
     Obs(u64, &'static str),
     Closed,
-    Error(String),
+    /// A receive error (text, is_final) returned by the named call.
+    Error(RErr, &'static str),
+    /// The library returned something impossible.
+    Bogus(String),
 }
 
-fn copy_out(r: Result<watch::Ref<'_, u64>, watch::RecvError>) -> Result<u64, String> {
+fn copy_out(r: Result<watch::Ref<'_, Val>, watch::RecvError>) -> Result<u64, RErr> {
     match r {
-        Ok(v) => Ok(*v),
-        Err(e) => Err(format!("{e:?}")),
+        Ok(v) => Ok(v.n),
+        Err(e) => Err((format!("{e:?}"), e.is_final())),
     }
 }
 
@@ -383,7 +583,7 @@ async fn run_step(rx: &mut WRx, step: Step, last: u64) -> StepOut {
             tokio::task::yield_now().await;
             match r {
                 Ok(v) => StepOut::Obs(v, "borrow"),
-                Err(e) => StepOut::Error(e),
+                Err(e) => StepOut::Error(e, "borrow"),
             }
         }
         Step::BorrowUpdate => {
@@ -391,7 +591,7 @@ async fn run_step(rx: &mut WRx, step: Step, last: u64) -> StepOut {
             tokio::task::yield_now().await;
             match r {
                 Ok(v) => StepOut::Obs(v, "borrow_and_update"),
-                Err(e) => StepOut::Error(e),
+                Err(e) => StepOut::Error(e, "borrow_and_update"),
             }
         }
         Step::HasChanged => {
@@ -399,7 +599,7 @@ async fn run_step(rx: &mut WRx, step: Step, last: u64) -> StepOut {
             let out = match hc {
                 Ok(true) => match copy_out(rx.borrow_and_update()) {
                     Ok(v) => StepOut::Obs(v, "has_changed+borrow_and_update"),
-                    Err(e) => StepOut::Error(e),
+                    Err(e) => StepOut::Error(e, "has_changed+borrow_and_update"),
                 },
                 Ok(false) => StepOut::Nothing,
                 Err(_) => StepOut::Closed,
@@ -410,21 +610,22 @@ async fn run_step(rx: &mut WRx, step: Step, last: u64) -> StepOut {
         Step::Changed { update } => match rx.changed().await {
             Ok(()) => {
                 let r = if update { copy_out(rx.borrow_and_update()) } else { copy_out(rx.borrow()) };
+                let how = if update { "changed+borrow_and_update" } else { "changed+borrow" };
                 match r {
-                    Ok(v) => StepOut::Obs(v, if update { "changed+borrow_and_update" } else { "changed+borrow" }),
-                    Err(e) => StepOut::Error(e),
+                    Ok(v) => StepOut::Obs(v, how),
+                    Err(e) => StepOut::Error(e, how),
                 }
             }
             Err(_) => StepOut::Closed,
         },
         Step::WaitFor(d) => {
             let target = last + d.max(1) as u64;
-            let r = rx.wait_for(move |v| *v >= target).await.map(|r| *r);
+            let r = rx.wait_for(move |v| v.n >= target).await.map(|r| r.n);
             match r {
                 Ok(v) if v >= target => StepOut::Obs(v, "wait_for"),
-                Ok(v) => StepOut::Error(format!("wait_for(>= {target}) returned {v}")),
+                Ok(v) => StepOut::Bogus(format!("wait_for(>= {target}) returned {v}")),
                 Err(watch::WaitForError::Closed) => StepOut::Closed,
-                Err(e) => StepOut::Error(format!("{e:?}")),
+                Err(watch::WaitForError::Recv(e)) => StepOut::Error((format!("{e:?}"), e.is_final()), "wait_for"),
             }
         }
     }
@@ -443,6 +644,9 @@ fn reader_task(ctx: Ctx, node: usize, rx: WRx, t: Ticket) -> Pin<Box<dyn Future<
         let n = spec.steps.len();
         let mut rx = rx;
         let mut cmds_open = true;
+        // After a receive error the reader waits for the next change (inside the select, so that
+        // a receiver holding an error can be cloned, moved and dropped).
+        let mut after_err = false;
         {
             let mut w = ctx.world.lock().unwrap();
             if let Some(l) = w.logs.get_mut(&id) {
@@ -458,8 +662,11 @@ fn reader_task(ctx: Ctx, node: usize, rx: WRx, t: Ticket) -> Pin<Box<dyn Future<
             }
             // A script cycle without a blocking read gets a forced `changed()` so that the reader
             // neither spins nor misses the closure.
-            let forced = pos > 0 && pos % n == 0 && !cycle_wait;
-            let step = if forced {
+            let err_wait = after_err;
+            let forced = err_wait || (pos > 0 && pos % n == 0 && !cycle_wait);
+            let step = if err_wait {
+                Step::Changed { update: true }
+            } else if forced {
                 cycle_wait = true;
                 Step::Changed { update: true }
             } else {
@@ -484,13 +691,13 @@ fn reader_task(ctx: Ctx, node: usize, rx: WRx, t: Ticket) -> Pin<Box<dyn Future<
             match ev {
                 Ev::Cmd(None) => {
                     cmds_open = false;
-                    if forced {
+                    if forced && !err_wait {
                         cycle_wait = false;
                     }
                 }
                 Ev::Cmd(Some(cmd)) => {
                     // The interrupted step is repeated later.
-                    if forced {
+                    if forced && !err_wait {
                         cycle_wait = false;
                     }
                     match cmd {
@@ -498,9 +705,12 @@ fn reader_task(ctx: Ctx, node: usize, rx: WRx, t: Ticket) -> Pin<Box<dyn Future<
                             let c = rx.clone();
                             {
                                 let mut w = ctx.world.lock().unwrap();
+                                let (born_gen, shipped) = w.logs.get(&id).map(|l| (l.born_gen, l.shipped)).unwrap_or((0, true));
                                 if let Some(l) = w.logs.get_mut(&new_id) {
                                     l.floor = last;
                                     l.node = Some(node);
+                                    l.born_gen = born_gen;
+                                    l.shipped = shipped;
                                 }
                             }
                             let t = Ticket { id: new_id, script, pos: 0, cmd_rx: new_cmd_rx, last, cycle_wait: true, ship_sent_hi: 0 };
@@ -519,10 +729,13 @@ fn reader_task(ctx: Ctx, node: usize, rx: WRx, t: Ticket) -> Pin<Box<dyn Future<
                             };
                             let room = if up { ctx.hops - node } else { node };
                             let nh = (hops.max(1) as usize).min(room);
+                            let local;
                             {
                                 let mut w = ctx.world.lock().unwrap();
                                 let ship_sent_hi = w.sent_hi;
+                                let tx_gen = w.tx_gen;
                                 w.rx_transfers += 1;
+                                local = w.logs.get(&id).map(|l| !l.shipped && l.born_gen == tx_gen).unwrap_or(false);
                                 if let Some(l) = w.logs.get_mut(&id) {
                                     l.node = None;
                                     l.transfers += 1;
@@ -530,7 +743,7 @@ fn reader_task(ctx: Ctx, node: usize, rx: WRx, t: Ticket) -> Pin<Box<dyn Future<
                                 w.tickets.insert(id, Ticket { id, script, pos, cmd_rx, last, cycle_wait, ship_sent_hi });
                             }
                             let q = ctx.queue(node, up).expect("queue exists");
-                            if q.send(Ship::Rx { id, hops_left: nh as u8 - 1, rx }).is_err() {
+                            if q.send(Ship::Rx { id, hops_left: nh as u8 - 1, rx, local }).is_err() {
                                 ctx.finish(id, End::Lost);
                             }
                             return;
@@ -543,6 +756,7 @@ fn reader_task(ctx: Ctx, node: usize, rx: WRx, t: Ticket) -> Pin<Box<dyn Future<
                     }
                 }
                 Ev::Step(out) => {
+                    after_err = false;
                     if !forced {
                         pos += 1;
                         if matches!(step, Step::Changed { .. } | Step::WaitFor(_)) {
@@ -558,24 +772,24 @@ fn reader_task(ctx: Ctx, node: usize, rx: WRx, t: Ticket) -> Pin<Box<dyn Future<
                         StepOut::Closed => {
                             match copy_out(rx.borrow()) {
                                 Ok(v) => ctx.record(id, v, "borrow-after-closure"),
-                                Err(e) => ctx.error(id, e),
+                                Err(e) => {
+                                    ctx.error(id, e, "borrow-after-closure");
+                                }
                             }
                             ctx.finish(id, End::Closed);
                             return;
                         }
-                        StepOut::Error(e) => {
-                            ctx.error(id, e);
-                            // Errors are values of the channel: keep reading until closure, but
-                            // not forever.
-                            let n_err = ctx.world.lock().unwrap().logs.get(&id).map(|l| l.errors.len()).unwrap_or(0);
-                            if n_err > 8 {
+                        StepOut::Error(e, how) => {
+                            // Errors are values of the channel: the reader goes on after the next
+                            // change (an error is reported again by wait_for without any await).
+                            if ctx.error(id, e, how) > MAX_ERRORS {
                                 ctx.finish(id, End::Errored);
                                 return;
                             }
-                            if rx.changed().await.is_err() {
-                                ctx.finish(id, End::Errored);
-                                return;
-                            }
+                            after_err = true;
+                        }
+                        StepOut::Bogus(m) => {
+                            ctx.world.lock().unwrap().fails.push(("C15/wait-for-wrong-value".into(), format!("receiver {id}: {m}")));
                         }
                     }
                 }
@@ -586,8 +800,13 @@ fn reader_task(ctx: Ctx, node: usize, rx: WRx, t: Ticket) -> Pin<Box<dyn Future<
 
 /// A clone that cannot be created (its parent has become a stream): neither can the clones that
 /// were already requested from it.
-fn skip_clone(ctx: &Ctx, id: u32, mut cmd_rx: UnboundedReceiver<Cmd>) {
+fn skip_clone(ctx: &Ctx, id: u32, cmd_rx: UnboundedReceiver<Cmd>) {
     ctx.finish(id, End::Skipped);
+    skip_pending_clones(ctx, cmd_rx);
+}
+
+/// The clones still queued at a receiver that ceased to exist are never created.
+fn skip_pending_clones(ctx: &Ctx, mut cmd_rx: UnboundedReceiver<Cmd>) {
     cmd_rx.close();
     while let Ok(cmd) = cmd_rx.try_recv() {
         if let Cmd::Clone { id, cmd_rx, .. } = cmd {
@@ -608,7 +827,7 @@ async fn stream_task(ctx: Ctx, id: u32, rx: WRx, spec: Reader, mut pos: usize, m
     let n = spec.steps.len();
     enum SEv {
         Cmd(Option<Cmd>),
-        Item(Option<Result<u64, watch::RecvError>>),
+        Item(Option<Result<Val, watch::RecvError>>),
     }
     loop {
         let ev = if cmds_open {
@@ -630,7 +849,7 @@ async fn stream_task(ctx: Ctx, id: u32, rx: WRx, spec: Reader, mut pos: usize, m
                 return;
             }
             SEv::Item(Some(Ok(v))) => {
-                ctx.record(id, v, "stream");
+                ctx.record(id, v.n, "stream");
                 // Pacing from the script.
                 match spec.steps[pos % n] {
                     Step::Ticks(k) => ticks(k.max(1) as u32).await,
@@ -640,9 +859,7 @@ async fn stream_task(ctx: Ctx, id: u32, rx: WRx, spec: Reader, mut pos: usize, m
                 pos += 1;
             }
             SEv::Item(Some(Err(e))) => {
-                ctx.error(id, format!("{e:?}"));
-                let n_err = ctx.world.lock().unwrap().logs.get(&id).map(|l| l.errors.len()).unwrap_or(0);
-                if n_err > 8 {
+                if ctx.error(id, (format!("{e:?}"), e.is_final()), "stream") > MAX_ERRORS {
                     ctx.finish(id, End::Errored);
                     return;
                 }
@@ -656,18 +873,50 @@ async fn stream_task(ctx: Ctx, id: u32, rx: WRx, spec: Reader, mut pos: usize, m
 }
 
 /// Sending side of one direction of one connection: ships halves one after the other.
-async fn porter_send(ctx: Ctx, mut q: UnboundedReceiver<Ship>, mut btx: base::Sender<Half, Codec>, deadline: u64) {
+async fn porter_send(ctx: Ctx, mut q: UnboundedReceiver<Ship>, mut btx: base::Sender<HalfOut, Codec>, deadline: u64) {
     while let Some(ship) = q.recv().await {
-        let (half, id) = match ship {
-            Ship::Rx { id, hops_left, rx } => (Half::Rx { id, hops_left, rx }, Some(id)),
-            Ship::Tx(tx) => (Half::Tx(tx), None),
+        let local_ship = matches!(&ship, Ship::Rx { local: true, .. });
+        let (halves, id) = match ship {
+            Ship::Rx { id, hops_left, rx, local } => {
+                // Serialised with the default limit (so the forwarding task accepts every value),
+                // deserialised with `SMALL` at the other endpoint.
+                (vec![HalfOut::Announce { id, local }, HalfOut::Rx { id, hops_left, rx: rx.set_max_item_size::<BIG>() }], Some(id))
+            }
+            Ship::Tx(tx) => (vec![HalfOut::Tx(tx)], None),
         };
-        let res = sim::within(deadline, btx.send(half)).await;
-        let err = match res {
-            Ok(Ok(())) => None,
-            Ok(Err(e)) => Some(format!("sending a half over the base channel failed: {e}")),
-            Err(()) => Some("sending a half over the base channel hangs".to_string()),
-        };
+        let mut err = None;
+        let mut unser = false;
+        let local = local_ship;
+        for half in halves {
+            let res = sim::within(deadline, btx.send(half)).await;
+            err = match res {
+                Ok(Ok(())) => None,
+                Ok(Err(e)) if e.is_item_specific() && id.is_some() => {
+                    // The snapshot of the receiver cannot be serialised: the receiver is gone
+                    // with the item. Whether this was legitimate is decided by the oracle.
+                    unser = true;
+                    Some(format!("sending a half over the base channel failed: {e}"))
+                }
+                Ok(Err(e)) => Some(format!("sending a half over the base channel failed: {e}")),
+                Err(()) => Some("sending a half over the base channel hangs".to_string()),
+            };
+            if err.is_some() {
+                break;
+            }
+        }
+        if let (true, Some(id), Some(e)) = (unser, id, &err) {
+            let (sent_hi, ticket) = {
+                let mut w = ctx.world.lock().unwrap();
+                let t = w.tickets.remove(&id);
+                w.undecodable_halves.push(format!("receiver {id}: {e}"));
+                (w.sent_hi, t)
+            };
+            ctx.finish(id, End::Undecodable { local, sent_hi });
+            if let Some(t) = ticket {
+                skip_pending_clones(&ctx, t.cmd_rx);
+            }
+            continue;
+        }
         if let Some(e) = err {
             {
                 let mut w = ctx.world.lock().unwrap();
@@ -686,15 +935,24 @@ async fn porter_send(ctx: Ctx, mut q: UnboundedReceiver<Ship>, mut btx: base::Se
 }
 
 /// Receiving side: lands halves at `node` or relays them further in the same direction.
-async fn porter_recv(ctx: Ctx, mut brx: base::Receiver<Half, Codec>, node: usize, up: bool) {
+async fn porter_recv(ctx: Ctx, mut brx: base::Receiver<HalfIn, Codec>, node: usize, up: bool) {
+    let mut announced: Option<(u32, bool)> = None;
     loop {
         match brx.recv().await {
-            Ok(Some(Half::Rx { id, hops_left, rx })) => {
+            Ok(Some(HalfIn::Announce { id, local })) => announced = Some((id, local)),
+            Ok(Some(HalfIn::Rx { id, hops_left, rx })) => {
+                announced = None;
+                {
+                    let mut w = ctx.world.lock().unwrap();
+                    if let Some(l) = w.logs.get_mut(&id) {
+                        l.shipped = true;
+                    }
+                }
                 let onward = if hops_left > 0 { ctx.queue(node, up) } else { None };
                 match onward {
                     Some(q) => {
                         ctx.world.lock().unwrap().relays += 1;
-                        if q.send(Ship::Rx { id, hops_left: hops_left - 1, rx }).is_err() {
+                        if q.send(Ship::Rx { id, hops_left: hops_left - 1, rx, local: false }).is_err() {
                             ctx.finish(id, End::Lost);
                         }
                     }
@@ -715,10 +973,26 @@ async fn porter_recv(ctx: Ctx, mut brx: base::Receiver<Half, Codec>, node: usize
                     }
                 }
             }
-            Ok(Some(Half::Tx(tx))) => {
+            Ok(Some(HalfIn::Tx(tx))) => {
+                announced = None;
                 let _ = ctx.arrivals.send(Ok((node, tx)));
             }
             Ok(None) => break,
+            Err(e) if !e.is_final() && announced.is_some() => {
+                // The item after an announcement could not be decoded: that receiver is gone, the
+                // base channel goes on. Whether this was legitimate is decided by the oracle.
+                let (id, local) = announced.take().unwrap();
+                let (sent_hi, ticket) = {
+                    let mut w = ctx.world.lock().unwrap();
+                    let t = w.tickets.remove(&id);
+                    w.undecodable_halves.push(format!("receiver {id}: {e}"));
+                    (w.sent_hi, t)
+                };
+                ctx.finish(id, End::Undecodable { local, sent_hi });
+                if let Some(t) = ticket {
+                    skip_pending_clones(&ctx, t.cmd_rx);
+                }
+            }
             Err(e) => {
                 let mut w = ctx.world.lock().unwrap();
                 if w.healthy {
@@ -732,12 +1006,12 @@ async fn porter_recv(ctx: Ctx, mut brx: base::Receiver<Half, Codec>, node: usize
 
 enum Src {
     Remoc(WTx),
-    Tokio(tokio::sync::watch::Sender<u64>, Vec<watch::Forwarding>),
+    Tokio(tokio::sync::watch::Sender<Val>, Vec<watch::Forwarding>),
 }
 
 impl Src {
     /// Returns whether the value was stored in the channel.
-    fn send(&self, v: u64, api: Api) -> bool {
+    fn send(&self, v: Val, api: Api) -> bool {
         match self {
             Src::Remoc(tx) => match api {
                 Api::Send => tx.send(v).is_ok(),
@@ -797,6 +1071,8 @@ async fn execute(case: &Case) -> ExecOut {
 
     let world = Arc::new(Mutex::new(World {
         sent_hi: 0,
+        tx_gen: 0,
+        kinds: vec![Kind::Plain],
         stored: vec![true],
         last_stored: 0,
         sender_dropped: false,
@@ -805,6 +1081,7 @@ async fn execute(case: &Case) -> ExecOut {
         inflight_rx: false,
         inflight_tx: false,
         relays: 0,
+        undecodable_halves: vec![],
         rx_transfers: 0,
         tx_transfers: 0,
         healthy,
@@ -855,7 +1132,7 @@ async fn execute(case: &Case) -> ExecOut {
         let (q_up_tx, q_up_rx) = unbounded_channel::<Ship>();
         let (q_dn_tx, q_dn_rx) = unbounded_channel::<Ship>();
         queues.push([q_up_tx, q_dn_tx]);
-        porter_parts.push((l, q_up_rx, q_dn_rx, base::Sender::<Half, Codec>::new(tx_a), base::Receiver::<Half, Codec>::new(rx_a), base::Sender::<Half, Codec>::new(tx_b), base::Receiver::<Half, Codec>::new(rx_b)));
+        porter_parts.push((l, q_up_rx, q_dn_rx, base::Sender::<HalfOut, Codec>::new(tx_a), base::Receiver::<HalfIn, Codec>::new(rx_a), base::Sender::<HalfOut, Codec>::new(tx_b), base::Receiver::<HalfIn, Codec>::new(rx_b)));
         links.push(link);
         keep.push(Box::new((ca_, la_, ra_, cb_, lb_, rb_)));
     }
@@ -881,7 +1158,11 @@ async fn execute(case: &Case) -> ExecOut {
         let id = *next_id;
         *next_id += 1;
         let (ctx_tx, crx) = unbounded_channel::<Cmd>();
-        world.lock().unwrap().logs.insert(id, RxLog::new(floor, Some(node)));
+        {
+            let mut w = world.lock().unwrap();
+            let g = w.tx_gen;
+            w.logs.insert(id, RxLog::new(floor, Some(node), g));
+        }
         alive.push((id, ctx_tx));
         all_ids.push(id);
         let t = Ticket { id, script, pos: 0, cmd_rx: crx, last: floor, cycle_wait: true, ship_sent_hi: 0 };
@@ -889,13 +1170,13 @@ async fn execute(case: &Case) -> ExecOut {
     };
 
     let mut src = if case.tokio_src {
-        let (ttx, trx) = tokio::sync::watch::channel(0u64);
-        let (fwd, rx) = watch::forward::<u64, Codec>(trx);
-        new_rx(rx, 0, 0, tx_node, &mut next_id, &mut alive, &mut all_ids);
+        let (ttx, trx) = tokio::sync::watch::channel(make_val(0, Kind::Plain));
+        let (fwd, rx) = watch::forward::<Val, Codec>(trx);
+        new_rx(rx.set_max_item_size::<SMALL>(), 0, 0, tx_node, &mut next_id, &mut alive, &mut all_ids);
         Some(Src::Tokio(ttx, vec![fwd]))
     } else {
-        let (tx, rx) = watch::channel::<u64, Codec>(0);
-        new_rx(rx, 0, 0, tx_node, &mut next_id, &mut alive, &mut all_ids);
+        let (tx, rx) = watch::channel::<Val, Codec>(make_val(0, Kind::Plain));
+        new_rx(rx.set_max_item_size::<SMALL>(), 0, 0, tx_node, &mut next_id, &mut alive, &mut all_ids);
         Some(Src::Remoc(tx))
     };
 
@@ -905,11 +1186,12 @@ async fn execute(case: &Case) -> ExecOut {
     let mut sender_lost = false;
 
     let mut send_failed_live = 0u32;
-    let do_send = |src: &Src, api: Api, send_failed: &mut u32, send_failed_live: &mut u32, alive: &Vec<(u32, UnboundedSender<Cmd>)>| {
+    let do_send = |src: &Src, api: Api, kind: Kind, send_failed: &mut u32, send_failed_live: &mut u32, alive: &Vec<(u32, UnboundedSender<Cmd>)>| {
         let mut w = world.lock().unwrap();
         let v = w.sent_hi + 1;
         w.sent_hi = v;
-        let ok = src.send(v, api);
+        let ok = src.send(make_val(v, kind), api);
+        w.kinds.push(kind);
         w.stored.push(ok);
         if ok {
             w.last_stored = v;
@@ -925,16 +1207,16 @@ async fn execute(case: &Case) -> ExecOut {
         let Some(s) = src.as_ref() else { break };
         let mut this_is_send = false;
         match op {
-            Op::Send { n, api, gap } => {
+            Op::Send { n, api, gap, marks, bigs, unsers } => {
                 if let Src::Remoc(tx) = s {
-                    let b = *tx.borrow();
+                    let b = tx.borrow().n;
                     let ls = world.lock().unwrap().last_stored;
                     if b != ls {
                         out.fails.push(("C15/sender-borrow".into(), format!("Sender::borrow() gives {b}, the most recently sent value is {ls}")));
                     }
                 }
                 for i in 0..*n {
-                    do_send(s, *api, &mut send_failed, &mut send_failed_live, &alive);
+                    do_send(s, *api, kind_of(*marks, *bigs, *unsers, i, case.bad), &mut send_failed, &mut send_failed_live, &alive);
                     if *gap > 0 && i + 1 < *n {
                         ticks(*gap as u32).await;
                     }
@@ -949,7 +1231,7 @@ async fn execute(case: &Case) -> ExecOut {
                     let id = next_id;
                     next_id += 1;
                     let (ctx_tx, crx) = unbounded_channel::<Cmd>();
-                    world.lock().unwrap().logs.insert(id, RxLog::new(0, None));
+                    world.lock().unwrap().logs.insert(id, RxLog::new(0, None, 0));
                     if parent.send(Cmd::Clone { id, script: *script as usize % n_scripts, cmd_rx: crx }).is_ok() {
                         alive.push((id, ctx_tx));
                         all_ids.push(id);
@@ -962,11 +1244,11 @@ async fn execute(case: &Case) -> ExecOut {
             Op::Subscribe { script } => {
                 let floor = world.lock().unwrap().last_stored;
                 let rx = match src.as_mut().unwrap() {
-                    Src::Remoc(tx) => tx.subscribe(),
+                    Src::Remoc(tx) => tx.subscribe().set_max_item_size::<SMALL>(),
                     Src::Tokio(ttx, fwds) => {
-                        let (fwd, rx) = watch::forward::<u64, Codec>(ttx.subscribe());
+                        let (fwd, rx) = watch::forward::<Val, Codec>(ttx.subscribe());
                         fwds.push(fwd);
-                        rx
+                        rx.set_max_item_size::<SMALL>()
                     }
                 };
                 new_rx(rx, *script as usize % n_scripts, floor, tx_node, &mut next_id, &mut alive, &mut all_ids);
@@ -979,7 +1261,15 @@ async fn execute(case: &Case) -> ExecOut {
                 }
             }
             Op::MoveTx { up } => {
-                if hops > 0 && matches!(s, Src::Remoc(_)) {
+                // A sender whose current value is marked cannot be moved: `Sender::deserialize`
+                // needs the current value, so the item carrying the sender would be undecodable.
+                let current_marked = {
+                    let w = world.lock().unwrap();
+                    matches!(w.kinds[w.last_stored as usize], Kind::Marked | Kind::Unser)
+                };
+                if current_marked && hops > 0 && matches!(s, Src::Remoc(_)) {
+                    *stats.entry("tx_move_skipped").or_insert(0) += 1;
+                } else if hops > 0 && matches!(s, Src::Remoc(_)) {
                     let up = if *up && tx_node >= hops {
                         false
                     } else if !*up && tx_node == 0 {
@@ -996,6 +1286,7 @@ async fn execute(case: &Case) -> ExecOut {
                             w.inflight_tx = true;
                         }
                         w.tx_transfers += 1;
+                        w.tx_gen += 1;
                     }
                     let Some(Src::Remoc(tx)) = src.take() else { unreachable!() };
                     let q = ctx.queue(tx_node, up).expect("queue exists");
@@ -1035,8 +1326,8 @@ async fn execute(case: &Case) -> ExecOut {
 
     // Last updates, then the sender is dropped at once.
     if let Some(s) = src.take() {
-        for _ in 0..case.final_burst {
-            do_send(&s, case.final_api, &mut send_failed, &mut send_failed_live, &alive);
+        for i in 0..case.final_burst {
+            do_send(&s, case.final_api, kind_of(case.final_marks, case.final_bigs, case.final_unsers, i, case.bad), &mut send_failed, &mut send_failed_live, &alive);
         }
         world.lock().unwrap().sender_dropped = true;
         drop(s);
@@ -1072,45 +1363,109 @@ async fn execute(case: &Case) -> ExecOut {
     // ---------------------------------------------------------------------------------------
     let w = world.lock().unwrap();
     if std::env::var("VERIF_DEBUG").is_ok() {
-        eprintln!("--- sent_hi {} last_stored {} stored {:?} timed_out {timed_out} tx_node {tx_node}", w.sent_hi, w.last_stored, w.stored);
+        eprintln!("--- sent_hi {} last_stored {} tx_gen {} stored {:?} kinds {:?} timed_out {timed_out} tx_node {tx_node} undecodable halves {:?}", w.sent_hi, w.last_stored, w.tx_gen, w.stored, w.kinds, w.undecodable_halves);
         for (id, l) in &w.logs {
-            eprintln!("rx {id}: floor {} node {:?} transfers {} stream {} end {:?} errors {:?}", l.floor, l.node, l.transfers, l.is_stream, l.end, l.errors);
-            eprintln!("      obs {:?}", l.obs.iter().map(|o| format!("{}@{}:{}", o.v, o.sent_hi, o.how)).collect::<Vec<_>>());
+            eprintln!("rx {id}: floor {} node {:?} transfers {} shipped {} born_gen {} stream {} end {:?}", l.floor, l.node, l.transfers, l.shipped, l.born_gen, l.is_stream, l.end);
+            eprintln!("      obs {:?}", l.obs.iter().map(|o| format!("{}@{}:{}", o.show(), o.sent_hi, o.how)).collect::<Vec<_>>());
+            for o in &l.obs {
+                if let Seen::Err { msg, .. } = &o.seen {
+                    eprintln!("      error: {msg}");
+                }
+            }
         }
     }
     out.fails.extend(w.fails.iter().cloned());
     let last = w.last_stored;
+    let live = healthy && !sender_lost;
+    let is_stored = |v: u64| w.stored.get(v as usize).copied().unwrap_or(false);
+    let kind = |v: u64| w.kinds.get(v as usize).copied().unwrap_or(Kind::Plain);
     let mut coalesced = false;
     let mut n_stream = 0;
     let mut n_moved = 0;
     let mut max_transfers = 0;
     let mut early_closure = false;
+    let mut err_reported = false;
+    let mut recovered = false;
+    let mut err_kinds: std::collections::BTreeSet<&'static str> = Default::default();
+    let mut ended_on_error = false;
+    let mut rx_lost_undecodable = 0;
     for id in &all_ids {
         let Some(l) = w.logs.get(id) else { continue };
+        // A receiver that was never transferred and hangs on the channel of the sender's final
+        // generation never had a connection between itself and the sender: nothing is undecodable
+        // for it. Otherwise a marked value may be undecodable for it, and an oversized one if it
+        // ever arrived over a connection.
+        let always_local = !l.shipped && l.born_gen == w.tx_gen;
+        let maybe_bad = |v: u64| match kind(v) {
+            Kind::Plain => false,
+            Kind::Marked | Kind::Unser => !always_local,
+            Kind::Big => l.shipped,
+        };
         let mut prev = l.floor;
-        let seq: Vec<u64> = l.obs.iter().map(|o| o.v).collect();
+        let mut pending_err = false;
+        let seq: Vec<String> = l.obs.iter().map(|o| o.show()).collect();
         for (k, o) in l.obs.iter().enumerate() {
-            let stored = w.stored.get(o.v as usize).copied().unwrap_or(false);
-            if !stored || o.v > o.sent_hi {
+            let v = match &o.seen {
+                Seen::Val(v) => *v,
+                Seen::Err { msg, fin } => {
+                    err_kinds.insert(if msg.contains("MaxItemSizeExceeded") {
+                        "error:max-item-size"
+                    } else if msg.contains("Deserialize") {
+                        "error:deserialize"
+                    } else if live {
+                        "error:other(healthy)"
+                    } else {
+                        "error:other(fault)"
+                    });
+                    if live {
+                        if *fin {
+                            out.fails.push(("C15/recv-error".into(), format!("receiver {id} got a FINAL receive error via {} on healthy connections: {msg}; observed sequence {seq:?}", o.how)));
+                            break;
+                        }
+                        // The state of a receiver follows the sending order: an error stands for
+                        // an undecodable value newer than everything observed before.
+                        if !((prev + 1)..=o.sent_hi).any(|b| is_stored(b) && maybe_bad(b)) {
+                            out.fails.push((
+                                "C15/recv-error".into(),
+                                format!(
+                                    "receiver {id} ({}) got a receive error via {} (observation {k}) although no value that could be undecodable for it was sent after the value {prev} it had observed (values issued so far 1..={}): {msg}; observed sequence {seq:?}",
+                                    if always_local { "no connection between it and the sender" } else { "remote" },
+                                    o.how,
+                                    o.sent_hi
+                                ),
+                            ));
+                            break;
+                        }
+                        err_reported = true;
+                        pending_err = true;
+                    }
+                    continue;
+                }
+            };
+            if !is_stored(v) || v > o.sent_hi {
                 out.fails.push((
                     "C15/unsent-value".into(),
-                    format!("receiver {id} observed {} via {} (observation {k}); values issued so far 1..={}, that value was {}; observed sequence {seq:?}", o.v, o.how, o.sent_hi, if stored { "not yet sent" } else { "never stored by a successful send" }),
+                    format!("receiver {id} observed {} via {} (observation {k}); values issued so far 1..={}, that value was {}; observed sequence {seq:?}", v, o.how, o.sent_hi, if is_stored(v) { "not yet sent" } else { "never stored by a successful send" }),
                 ));
                 break;
             }
-            if o.v < prev {
+            if v < prev {
                 out.fails.push((
                     "C15/went-backwards".into(),
-                    format!("receiver {id} observed {} via {} after {} (observation {k}; lower bound at creation {}); observed sequence {seq:?}; transfers {}", o.v, o.how, prev, l.floor, l.transfers),
+                    format!("receiver {id} observed {} via {} after {} (observation {k}; lower bound at creation {}); observed sequence {seq:?}; transfers {}", v, o.how, prev, l.floor, l.transfers),
                 ));
                 break;
             }
             // Coalesced: a value stored in the channel lies strictly between two consecutive
             // observations, i.e. this receiver skipped it.
-            if o.v > prev + 1 && ((prev + 1)..o.v).any(|x| w.stored.get(x as usize).copied().unwrap_or(false)) {
+            if v > prev + 1 && ((prev + 1)..v).any(|x| is_stored(x)) {
                 coalesced = true;
             }
-            prev = o.v;
+            if pending_err && v > prev {
+                recovered = true;
+            }
+            pending_err = false;
+            prev = v;
         }
         if l.is_stream {
             n_stream += 1;
@@ -1121,46 +1476,71 @@ async fn execute(case: &Case) -> ExecOut {
         max_transfers = max_transfers.max(l.transfers);
         early_closure |= l.early_closure;
         let required = alive.iter().any(|(a, _)| a == id);
-        if healthy && !sender_lost && !l.errors.is_empty() {
-            out.fails.push(("C15/recv-error".into(), format!("receiver {id} got errors on healthy connections: {:?}; observed sequence {seq:?}", l.errors)));
+        if let Some(End::Undecodable { local, sent_hi }) = &l.end {
+            rx_lost_undecodable += 1;
+            // Legitimate only for a receiver shipped from the sender's own channel while a marked
+            // value could be its current value (the snapshot travels inside the item).
+            let excuse = *local && (prev..=*sent_hi).any(|b| is_stored(b) && matches!(kind(b), Kind::Marked | Kind::Unser));
+            if live && !excuse {
+                out.fails.push(("C15/transfer-failed".into(), format!("the item carrying receiver {id} was undecodable at the next endpoint although its snapshot cannot have been a marked value (shipped from the sender's channel: {local}; last observed {prev}; issued 1..={sent_hi}); {:?}", w.undecodable_halves)));
+            }
         }
-        if healthy && !sender_lost && required {
-            let final_v = l.obs.last().map(|o| o.v);
-            match &l.end {
-                Some(End::Closed) | Some(End::StreamEnd) => {
-                    if final_v != Some(last) {
-                        out.fails.push((
-                            "C15/lost-update".into(),
-                            format!(
-                                "receiver {id} ({}; transfers {}; endpoint {:?}) saw the closure having observed {final_v:?} last, but the last value sent is {last}; observed sequence {seq:?} via {:?}",
-                                if l.is_stream { "stream" } else { "receiver" },
-                                l.transfers,
-                                l.node,
-                                l.obs.last().map(|o| o.how)
-                            ),
-                        ));
+        if live && required {
+            // The highest value that certainly reached this receiver in decodable form: nothing
+            // newer than its final observation may be of that sort.
+            let final_ev = l.obs.last();
+            let verdict: Result<(), String> = match final_ev.map(|o| &o.seen) {
+                None => Err("observed nothing at all".into()),
+                Some(Seen::Val(x)) => match ((*x + 1)..=last).rev().find(|y| is_stored(*y) && !maybe_bad(*y)) {
+                    Some(y) if y == last => Err(format!("observed {x} last, but the last value sent is {last}")),
+                    Some(y) => Err(format!("observed {x} last, but the later value {y} was sent and is decodable for it (the values after {y} are undecodable for it)")),
+                    None => Ok(()),
+                },
+                Some(Seen::Err { msg, .. }) => {
+                    ended_on_error = true;
+                    // Fine if it stands for an undecodable value after which nothing decodable was sent.
+                    let last_good = (1..=last).rev().find(|y| is_stored(*y) && !maybe_bad(*y)).unwrap_or(0);
+                    if ((last_good.max(prev) + 1)..=last).any(|b| is_stored(b) && maybe_bad(b)) {
+                        Ok(())
+                    } else if last_good == last {
+                        Err(format!("ended on the receive error {msg}, but the last value sent {last} is decodable for it"))
+                    } else {
+                        Err(format!("ended on the receive error {msg}, but the value {last_good} sent after every value that could be undecodable for it never showed up"))
                     }
                 }
-                Some(End::Skipped) | Some(End::Dropped) => {}
+            };
+            let who = format!(
+                "receiver {id} ({}; {}; transfers {}; endpoint {:?})",
+                if l.is_stream { "stream" } else { "receiver" },
+                if always_local { "no connection between it and the sender" } else { "remote" },
+                l.transfers,
+                l.node
+            );
+            match &l.end {
+                Some(End::Closed) | Some(End::StreamEnd) => {
+                    if let Err(why) = verdict {
+                        out.fails.push(("C15/lost-update".into(), format!("{who} saw the closure having {why}; observed sequence {seq:?} via {:?}", final_ev.map(|o| o.how))));
+                    }
+                }
+                Some(End::Skipped) | Some(End::Dropped) | Some(End::Undecodable { .. }) => {}
                 Some(End::Lost) | Some(End::Errored) => {
-                    out.fails.push(("C15/recv-error".into(), format!("receiver {id} ended with {:?} on healthy connections; errors {:?}", l.end, l.errors)));
+                    out.fails.push(("C15/recv-error".into(), format!("receiver {id} ended with {:?} on healthy connections; observed sequence {seq:?}", l.end)));
                 }
                 None => {
                     let in_transit = l.node.is_none();
-                    if final_v != Some(last) || in_transit {
+                    if verdict.is_err() || in_transit {
                         out.fails.push((
                             "C15/lost-update".into(),
                             format!(
-                                "receiver {id} ({}{}; transfers {}) never observed the last value {last} within {wait_s} virtual s after the sender was dropped; observed sequence {seq:?}",
-                                if l.is_stream { "stream" } else { "receiver" },
-                                if in_transit { ", still in transit" } else { "" },
-                                l.transfers
+                                "{who}{} did not get to the last value within {wait_s} virtual s after the sender was dropped: {}; observed sequence {seq:?}",
+                                if in_transit { " still in transit" } else { "" },
+                                verdict.err().unwrap_or_else(|| "in transit".into())
                             ),
                         ));
                     } else {
                         out.fails.push((
                             "C15/no-closure".into(),
-                            format!("receiver {id} observed the last value {last} but not the closure within {wait_s} virtual s after the sender was dropped (timed out: {timed_out}); observed sequence {seq:?}"),
+                            format!("{who} observed the last value {last} but not the closure within {wait_s} virtual s after the sender was dropped (timed out: {timed_out}); observed sequence {seq:?}"),
                         ));
                     }
                 }
@@ -1217,6 +1597,34 @@ async fn execute(case: &Case) -> ExecOut {
     if send_failed > 0 {
         c("send-returned-error".into());
     }
+    let n_unser = (1..=w.sent_hi).filter(|v| is_stored(*v) && kind(*v) == Kind::Unser).count();
+    if n_unser > 0 {
+        c("unserialisable-values".into());
+    }
+    let n_marked = (1..=w.sent_hi).filter(|v| is_stored(*v) && kind(*v) == Kind::Marked).count();
+    let n_big = (1..=w.sent_hi).filter(|v| is_stored(*v) && kind(*v) == Kind::Big).count();
+    c(format!("undecodable-values:{}", match (n_marked > 0, n_big > 0) { (false, false) => "none", (true, false) => "marked", (false, true) => "oversized", (true, true) => "marked+oversized" }));
+    if n_marked + n_big > 0 {
+        c(format!("last-value:{}", match kind(last) { Kind::Plain => "plain", Kind::Marked => "marked", Kind::Big => "oversized", Kind::Unser => "unserialisable" }));
+    }
+    if err_reported {
+        c("receiver-reported-non-final-error".into());
+    }
+    if recovered {
+        c("newer-value-observed-after-error".into());
+    }
+    if ended_on_error {
+        c("receiver-ended-on-error".into());
+    }
+    for k in &err_kinds {
+        c(k.to_string());
+    }
+    if rx_lost_undecodable > 0 {
+        c("receiver-lost:undecodable-snapshot".into());
+    }
+    if stats.get("tx_move_skipped").copied().unwrap_or(0) > 0 {
+        c("sender-move-skipped:marked-current-value".into());
+    }
     if case.final_burst > 0 {
         c("update-right-before-drop".into());
     }
@@ -1241,7 +1649,11 @@ pub fn run(case: &Case) -> Outcome {
     out.frames = res.frames;
     out.inconclusive = res.inconclusive;
     if let Some((s, m)) = res.fails.first() {
-        out.fail(s.clone(), m.clone());
+        // A case that contains a value whose Serialize fails on the sender's endpoint gets its own
+        // signature, so that the known finding about such values never hides another lost update.
+        let has_unser = case.final_unsers != 0 || case.ops.iter().any(|o| matches!(o, Op::Send { unsers, .. } if *unsers != 0));
+        let sig = if has_unser && s == "C15/lost-update" { "C15/lost-update/after-unserialisable-value".to_string() } else { s.clone() };
+        out.fail(sig, m.clone());
     }
     for c in res.classes {
         out.class(c);
@@ -1250,7 +1662,7 @@ pub fn run(case: &Case) -> Outcome {
     out
 }
 
-pub const RULE: &str = "case = (0..3 chmux connections in a line over simulated transports with generated Cfg/schedule, watch channel of counter values created at a generated endpoint either by watch::channel or by watch::forward of a tokio watch, op history: bursts of send/send_replace/send_modify with or without scheduler passes in between, pauses, clone a receiver, subscribe at the sender, send a receiver 1..3 connections away (re-sent at every intermediate endpoint), send the sender to the neighbouring endpoint, drop a receiver; per receiver a generated read script of borrow/borrow_and_update/has_changed/changed/wait_for/ReceiverStream with pauses; 0..3 updates synchronously before the sender is dropped; optional transport fault). Oracle over the recorded history: every observed value was stored by a successful send (or is the initial value) and had been issued when observed; per logical receiver (followed across transfers; a clone starts at its parent's last observation, a subscriber at the latest value) the observed sequence is non-decreasing; Sender::borrow equals the latest value; without fault every receiver not dropped observes the closure within the virtual deadline and its last observation is the last value sent; no receive errors on healthy connections. With a fault only the safety part is checked. non-trivial = (some receiver skipped at least one sent value between two consecutive observations) AND (a receiver landed after a transfer during which the sender issued an update, OR the sender was shipped directly after an update without any scheduler pass while a live receiver was at another endpoint or in transit); distinct = distinct case hash";
+pub const RULE: &str = "case = (0..3 chmux connections in a line over simulated transports with generated Cfg/schedule, watch channel of counter values created at a generated endpoint either by watch::channel or by watch::forward of a tokio watch, op history: bursts of send/send_replace/send_modify with or without scheduler passes in between, pauses, clone a receiver, subscribe at the sender, send a receiver 1..3 connections away (re-sent at every intermediate endpoint), send the sender to the neighbouring endpoint, drop a receiver; per receiver a generated read script of borrow/borrow_and_update/has_changed/changed/wait_for/ReceiverStream with pauses; 0..3 updates synchronously before the sender is dropped; optional transport fault; in 60 % of the cases generated updates are undecodable for receivers behind a connection: 'marked' values are rejected by the value type's custom Deserialize, 'oversized' values exceed the max_item_size (384 bytes) that every receiver has after it arrived over a connection - both give a NON-FINAL receive error for that value only). Oracle over the recorded history: every observed value was stored by a successful send (or is the initial value) and had been issued when observed; per logical receiver (followed across transfers; a clone starts at its parent's last observation, a subscriber at the latest value) the observed sequence is non-decreasing; Sender::borrow equals the latest value; without fault every receiver not dropped observes the closure within the virtual deadline and its last observation is the last value sent; a receiver that never had a connection between itself and the sender gets no receive error at all and must end on the last value sent whatever its kind; a receiver behind a connection may get non-final receive errors, but only while an undecodable value newer than its last observed value has been sent, it must not get a final error, and when it sees the closure its last observation must be either a value after which no value decodable for it was sent (so the last value sent if that is decodable) or an error standing for an undecodable value after which nothing decodable was sent; a receiver may get lost in a transfer only if it was shipped from the sender's own channel while a marked value could be its current value (the snapshot travels inside the carrying item). With a fault only the safety part is checked. non-trivial = (some receiver skipped at least one sent value between two consecutive observations) AND (a receiver landed after a transfer during which the sender issued an update, OR the sender was shipped directly after an update without any scheduler pass while a live receiver was at another endpoint or in transit); distinct = distinct case hash";
 
 pub fn main(tier: Tier, seed: u64) -> Report {
     let mut rep = Report::new("C15", tier, seed);
@@ -1260,6 +1672,8 @@ pub fn main(tier: Tier, seed: u64) -> Report {
         "a receiver sent to another endpoint is treated as the same logical receiver: observations after the transfer must not be older than those before it".into(),
         "a value whose send() returned an error counts as not sent; send_replace/send_modify always count as sent".into(),
         "with a transport fault only 'observed values were sent, in order' is checked".into(),
+        "undecodable values: a remote receiver may report the non-final error or skip the value; which endpoints can decode a value is over-approximated per receiver (marked: undecodable unless the receiver never had a connection to the sender; oversized: undecodable only for receivers that arrived over a connection)".into(),
+        "a sender whose current value is marked is not moved, and a receiver shipped from the sender's own channel with a marked current value is lost with the undecodable carrying item (both follow from the snapshot being part of the transported half)".into(),
     ];
     let regress: Vec<Case> = runner::load_regress::<Case>("C15", "watch").into_iter().map(|(_, c)| c).collect();
     if !regress.is_empty() {
